@@ -471,6 +471,44 @@ def herm_rand(rng, n, cplx=True):
     return (m + m.conj().T) / 4
 
 
+def section_nh_frames():
+    """C05 / C14: biorthogonal (R, L) frames with a perturbation that is exactly Hermitian in the basis in which it is given."""
+    global cases
+    n, N = 4, 3
+    Ed = np.array([0.0, 0.0, 2.0 + 1j, 2.0 + 1j])
+    idx = [[0, 1], [2, 3]]
+    # the same as case 4 of `formats` with a perturbation that is exactly HERMITIAN in the basis in which it is given (a Hermitian coupling added to a non-Hermitian H_0), dense and sparse,
+    #     also with a merely rescaled frame R = c v, L = v / conj(c): the blocks are L_i^dagger H R_j for every (i, j) - nothing may be taken from an adjoint
+    for frame in ("biorthogonal", "rescaled", "lower-triangular", "upper-triangular"):
+        for conv4 in (np.array, sparse.csr_array):
+            cases += 1
+            r4 = np.random.default_rng(15)
+            if frame == "biorthogonal":
+                R4 = r4.integers(-2, 3, size=(n, n)).astype(complex) + 1j * r4.integers(-1, 2, size=(n, n)) + 3 * np.eye(n)
+            elif frame.endswith("triangular"):
+                # H_0 = R diag(E) R^-1 is then triangular: every off-diagonal entry lies on ONE side of the diagonal (a test of diagonality may not look at one triangle only)
+                R4 = np.eye(n, dtype=complex) + np.tril(r4.integers(-2, 3, size=(n, n)), -1)
+                if frame.startswith("upper"):
+                    R4 = R4.T.copy()
+            else:
+                R4 = np.linalg.qr(r4.normal(size=(n, n)) + 1j * r4.normal(size=(n, n)))[0] * np.array([2.0, 0.5j, 1.0 + 1.0j, 3.0])
+            L4 = np.linalg.inv(R4).conj().T
+            H0lab = R4 @ np.diag(Ed) @ L4.conj().T
+            Hh = herm_rand(r4, n)                                   # Hermitian in the lab frame
+            try:
+                a4 = block_diagonalize([conv4(H0lab), conv4(Hh)], subspace_eigenvectors=((R4[:, :2], L4[:, :2]), (R4[:, 2:], L4[:, 2:])), hermitian=False)
+                b4 = block_diagonalize([np.diag(Ed), L4.conj().T @ Hh @ R4], subspace_indices=[0, 0, 1, 1], hermitian=False)
+                [a4[0][0, 0, 0], a4[0][1, 1, 0]]
+            except Exception as e:  # noqa: BLE001
+                fail("formats", "well-posed non-Hermitian problem given in a biorthogonal frame is rejected", frame=frame, values=conv4.__name__, error=repr(e)[:200])
+                continue
+            for s_ in range(3):
+                for k in range(N + 1):
+                    if not close(full(idx, a4[s_], (k,)), full(idx, b4[s_], (k,)), 1e-7):
+                        fail("formats", "biorthogonal eigenbasis with a Hermitian perturbation is not equivalent to projecting the Hamiltonian first", frame=frame, values=conv4.__name__,
+                             output=NAMES[s_], order=k, err=float(np.abs(full(idx, a4[s_], (k,)) - full(idx, b4[s_], (k,))).max()))
+
+
 def section_formats():
     global cases
     rng = np.random.default_rng(8)
@@ -649,6 +687,7 @@ def section_formats():
         for k in range(N + 1):
             if not close(full(idx, a[s], (k,)), full(idx, b[s], (k,)), 1e-7):
                 fail("formats", "biorthogonal eigenbasis is not equivalent to rotating the Hamiltonian first", output=NAMES[s], order=k)
+    section_nh_frames()
     # 5. rounding noise within atol in H_0 (between the blocks and inside them) is treated as zero whatever the value type: dense, sparse, pre-blocked with sparse or dense blocks
     cases += 1
     E4 = np.diag([0.0, 1.0, 3.0, 4.5])
@@ -716,8 +755,45 @@ def section_formats():
         fail("formats", "symbolic Hamiltonian without symbols=: first order in b is not the coefficient of b", got=str(out3[0, 0, 0, 1, 0]))
 
 
+def _implicit_nh_full():
+    """hermitian=False, implicit mode, explicit block fully diagonalized (list and mask form): equals the computation with the complete basis, to order 5
+    (the algorithm then asks the solver for the implicit diagonal block from third order on)."""
+    global cases
+    h0 = np.diag([0.0, 1.0, 3.0, 4.0, 6.5])
+    r_ = np.random.default_rng(12)
+    h1 = r_.integers(-2, 3, size=(5, 5)).astype(float) / 2
+    I5 = np.eye(5)
+    RB = I5[:, 2:]
+
+    def dn(x, shape):
+        if x is zero:
+            return np.zeros(shape, dtype=complex)
+        if x is one:
+            return np.eye(shape[0], dtype=complex)
+        if hasattr(x, "matmat") and not isinstance(x, np.ndarray) and not sparse.issparse(x):
+            return np.asarray(x @ np.eye(x.shape[1]))
+        return dense(x, shape)
+    m_ = np.array([[False, True], [True, False]])
+    for fd in ([0], {0: m_}):
+        cases += 1
+        try:
+            imp = block_diagonalize([sparse.csr_array(h0), sparse.csr_array(h1)], subspace_eigenvectors=[I5[:, :2]], hermitian=False, fully_diagonalize=fd)
+            ref = block_diagonalize([h0, h1], subspace_eigenvectors=[I5[:, :2], RB], hermitian=False, fully_diagonalize=fd)
+            for s_ in range(3):
+                for k in range(6):
+                    pairs = ((dn(imp[s_][0, 0, k], (2, 2)), dn(ref[s_][0, 0, k], (2, 2))), (RB.T @ dn(imp[s_][1, 1, k], (5, 5)) @ RB, dn(ref[s_][1, 1, k], (3, 3))),
+                             (dn(imp[s_][0, 1, k], (2, 5)) @ RB, dn(ref[s_][0, 1, k], (2, 3))), (RB.T @ dn(imp[s_][1, 0, k], (5, 2)), dn(ref[s_][1, 0, k], (3, 2))))
+                    for a_, b_ in pairs:
+                        if not close(a_, b_, 1e-8):
+                            fail("implicit", "non-Hermitian implicit mode with a fully diagonalized explicit block differs from the complete-basis computation", fully_diagonalize=str(fd)[:20],
+                                 output=NAMES[s_], order=k, err=float(np.abs(a_ - b_).max()))
+        except Exception as e:  # noqa: BLE001
+            fail("implicit", "non-Hermitian implicit mode with a fully diagonalized explicit block raised", fully_diagonalize=str(fd)[:20], error=repr(e)[:200])
+
+
 def section_implicit():
     global cases
+    _implicit_nh_full()
     rng = np.random.default_rng(21)
     N = 3
 
